@@ -39,12 +39,15 @@
    patterns or on net/url (C20_attrs_stable_no_surviving_url, Proofs/AttrIdemNoUrl.v); hence
    C20_ugc_no_surviving_url: UGCPolicy, every input, provided no del / ins cite and no area href
    survives the first pass.
-   Missing: the one mixed case in which the statement does hold (link: rel allowed, crossorigin
-   not), and UGC's area with a surviving href; carried by the idempotence oracle on every generated case of
+   The remaining combinations (none of the attributes forced on the element allowed; link with
+   rel allowed and crossorigin not) are proved in Proofs/AttrIdemRelevant.v:
+   C20_idempotent_stable_elements3, with C20_condition_separates showing that the decidable
+   condition accepts them and rejects the two refuting policies.
+   Missing: UGC's area with a surviving href (patterned rel); carried by the idempotence oracle on every generated case of
    the stated policy class (link grid included), StrictPolicy and UGCPolicy. *)
 From Coq Require Import List NArith Bool.
 Import ListNotations.
-From BM Require Import Bytes Escape Tokenizer Policy Attrs Loop LoopProps EscapeProofs LinkProofs MiscProofs Url Style MapProofs SanRoundTrip PassThrough AttrIdem AttrProvenance AttrIdemLinks LinkIdem AttrIdemAccepted AttrIdemNoUrl Builder GenTables GenScripts UGCSpec C04Inst PlainInst.
+From BM Require Import Bytes Escape Tokenizer Policy Attrs Loop LoopProps EscapeProofs LinkProofs MiscProofs Url Style MapProofs SanRoundTrip PassThrough AttrIdem AttrProvenance AttrIdemLinks LinkIdem AttrIdemAccepted AttrIdemNoUrl AttrIdemRelevant Builder GenTables GenScripts UGCSpec C04Inst PlainInst.
 
 Theorem C20_escaping_not_applied_twice_partial : forall d,
   render_item (IText (unescape false (render_item (IText d)))) = render_item (IText d).
@@ -128,6 +131,21 @@ Theorem C20_idempotent_stable_elements2 : forall M U R (I : interp M U R) (p : p
 Proof.
   intros M U R I p Hplain Hnc Hrw Hst s Hel. apply (sanitize_idempotent_on I p Hplain Hnc).
   intros n a aps Hin Hp. destruct (Hel n a aps Hin Hp) as [H1 H2]. apply (elem_stable2_sound I p Hrw Hst); assumption.
+Qed.
+
+(* all combinations: each attribute a pass can force on the element is allowed without a pattern or not allowed at all;
+   stable when all are allowed, when none is, and on link when rel is allowed and crossorigin is not.  What is left out is
+   exactly what F15 (a: one of rel / target) and F17 (link: crossorigin but not rel) refute. *)
+Theorem C20_idempotent_stable_elements3 : forall M U R (I : interp M U R) (p : policy M U R),
+  plain_policy I p -> allowComments p = false -> srcRewriter p = None ->
+  (forall raw u, valid_url I p raw = Some u -> valid_url I p u = Some u) ->
+  forall s,
+  (forall n a aps, In (TStart n a) (tokenize s) \/ In (TSelf n a) (tokenize s) -> element_policies I p n = Some aps ->
+     has_style_policies I p n = false /\ elem_stable3_b p n aps = true) ->
+  sanitize_bytes I p (sanitize_bytes I p s) = sanitize_bytes I p s.
+Proof.
+  intros M U R I p Hplain Hnc Hrw Hst s Hel. apply (sanitize_idempotent_on I p Hplain Hnc).
+  intros n a aps Hin Hp. destruct (Hel n a aps Hin Hp) as [H1 H2]. apply (elem_stable3_sound I p Hrw Hst); assumption.
 Qed.
 
 (* not vacuous: a policy that allows href, rel and target on a and hardens links meets the condition on a
@@ -275,11 +293,26 @@ Proof.
   cbn in Hx. repeat (destruct Hx as [<-|Hx]; [vm_compute; reflexivity|]). contradiction.
 Qed.
 
+(* the condition separates the cases as claimed: link with rel but not crossorigin allowed, and img under a policy that allows
+   rel globally but not crossorigin, are stable (and not by the earlier conditions); the two refuting policies are not *)
+Definition c20_mixed_policy : policy smatcher unit unit :=
+  build no_default [@OAllowAttrs _ _ _ [B"href"; B"rel"] None false (@OnElements _ [B"link"]);
+                    @OAllowAttrs _ _ _ [B"src"] None false (@OnElements _ [B"img"]);
+                    @OAllowAttrs _ _ _ [B"rel"] None false (@Globally _);
+                    @OAllowURLSchemes _ _ _ [B"http"]; @ORequireNoFollowOnLinks _ _ _ true; @ORequireCrossOriginAnonymous _ _ _ true].
+Example C20_condition_separates :
+  forallb (fun e => elem_stable3_b c20_mixed_policy (fst e) (snd e) && negb (elem_stable2_b c20_mixed_policy (fst e) (snd e)))
+          (elsAndAttrs c20_mixed_policy) = true /\ length (elsAndAttrs c20_mixed_policy) = 2%nat /\
+  forallb (fun e => negb (elem_stable3_b c20_policy (fst e) (snd e))) (elsAndAttrs c20_policy) = true /\
+  forallb (fun e => negb (elem_stable3_b c20_policy2 (fst e) (snd e))) (elsAndAttrs c20_policy2) = true.
+Proof. repeat split; vm_compute; reflexivity. Qed.
+
 Print Assumptions C20_link_passes_idempotent.
 Print Assumptions C20_attrs_stable_no_surviving_url.
 Print Assumptions C20_ugc_no_surviving_url.
 Print Assumptions C20_attrs_stable_forced_accepted_or_rejected.
 Print Assumptions C20_idempotent_stable_elements2.
+Print Assumptions C20_idempotent_stable_elements3.
 Print Assumptions C20_refuted_forced_attr_order_crossorigin.
 Print Assumptions C20_escaping_not_applied_twice_partial.
 Print Assumptions C20_refuted_forced_attr_order.
